@@ -44,6 +44,8 @@ def run_local(case):
         os.makedirs(d + "/t")
         world = LocalWorld(d + "/t")
         sch = Scheduler(case["schedule"], max_decisions=30000)
+        # virtual time starts at the real clock: the library compares time.time() with (real) file modification times
+        sch.now = __import__("time").time()
         st_ = Stepper()
         st_.handler = lambda n, phase, label, target, info: sch.step(phase, label, target, info)
         state = {"inside": [], "overlap": None, "attempting": set(), "contended": False, "bad_held": []}
@@ -51,6 +53,14 @@ def run_local(case):
             from datashard.file_lock import FileLock
 
             path = os.path.join(world.root, ".locks", "x.lock")
+            if sc.get("lock_age"):
+                # an OLD table: the lock file was created long ago (flock never rewrites it, its mtime is not a liveness signal)
+                os.makedirs(os.path.dirname(path), exist_ok=True)
+                with open(path, "ab"):
+                    pass
+                tt = __import__("time").time() - sc["lock_age"]
+                os.utime(path, (tt, tt))
+                out["labels"].append("old-lock-file")
             locks = [FileLock(path, timeout=sc.get("timeout", 5.0)) for _ in sc["contenders"]]
 
             def prog(i, spec):
@@ -111,7 +121,7 @@ def run_local(case):
             for kind, el in a.result or []:
                 if kind == "timeout":
                     out["labels"].append("timeout-case")
-                    if not (timeout - 1e-6 <= el <= timeout + 0.01 + 0.15):
+                    if not (timeout - 1e-5 <= el <= timeout + 0.01 + 0.15):
                         out["violations"].append(("local/timeout-window", f"TimeoutError after {el:.3f} virtual s, configured timeout {timeout}"))
                 elif kind == "acquire-returned":
                     out["violations"].append(("local/acquire-returned-non-true", f"acquire() returned {el!r}"))
@@ -438,6 +448,8 @@ FIXED = [
     {"kind": "local", "timeout": 5.0, "contenders": [{"rounds": 2}, {"rounds": 2}]},
     {"kind": "local", "timeout": 5.0, "contenders": [{"rounds": 1, "hold": 0.02}, {"rounds": 2}, {"rounds": 1}]},
     {"kind": "local", "timeout": 3.0, "contenders": [{"rounds": 1, "hold": 1000.0}, {"rounds": 1}]},
+    {"kind": "local", "timeout": 3.0, "lock_age": 86400, "contenders": [{"rounds": 1, "hold": 1000.0}, {"rounds": 1}]},
+    {"kind": "local", "timeout": 5.0, "lock_age": 86400, "contenders": [{"rounds": 2, "hold": 0.02}, {"rounds": 2}]},
     {"kind": "s3", "timeout": 8.0, "contenders": [{}, {}]},
     {"kind": "s3", "timeout": 8.0, "contenders": [{"renew": True}, {}], "extras": [{"kind": "age", "seconds": 120}]},
     {"kind": "s3", "timeout": 8.0, "contenders": [{"hold": 0.5}, {}], "extras": [{"kind": "age", "seconds": 120}, {"kind": "renew", "of": 0}, {"kind": "probe", "of": 0}]},
@@ -502,8 +514,9 @@ def pct_case(draw):
     kind = draw(st.sampled_from(["local", "s3", "s3"]))
     n = draw(st.integers(2, 3))
     if kind == "local":
-        cont = [{"rounds": draw(st.integers(1, 2)), "hold": draw(st.sampled_from([0.0, 0.02, 0.0]))} for _ in range(n)]
+        cont = [{"rounds": draw(st.integers(1, 2)), "hold": draw(st.sampled_from([0.0, 0.02, 0.0, 1000.0]))} for _ in range(n)]
         extras = []
+        lock_age = draw(st.sampled_from([0, 0, 400, 86400]))
     else:
         cont = [{"hold": draw(st.sampled_from([0.0, 0.5])), "renew": draw(st.booleans())} for _ in range(n)]
         extras = []
@@ -513,7 +526,7 @@ def pct_case(draw):
     m = n + len(extras)
     order = draw(st.permutations(list(range(m))))
     pre = [[draw(st.integers(1, 120)), draw(st.integers(0, m - 1))] for _ in range(draw(st.integers(0, 4)))]
-    return {"kind": "sched", "sc": {"kind": kind, "timeout": 8.0, "contenders": cont, "extras": extras}, "schedule": {"order": list(order), "preempt": sorted(pre)},
+    return {"kind": "sched", "sc": {"kind": kind, "timeout": 8.0, "contenders": cont, "extras": extras, **({"lock_age": lock_age} if kind == "local" and lock_age else {})}, "schedule": {"order": list(order), "preempt": sorted(pre)},
             "seed": draw(st.integers(0, 3))}
 
 
